@@ -101,6 +101,15 @@ class ArrayConstraintBuilder(ConstraintOverrideVisitor):
         else:
             super().visit_constraint_if_else(c)
 
+    def visit_expr_indexed_dynref(self, e):
+        if self.do_copy_level > 0:
+            super().visit_expr_indexed_dynref(e)
+        else:
+            # As for a direct reference, the referenced dynamic-constraint 
+            # block is part of this solve: expand the arrays it iterates over
+            fm = Expr2FieldVisitor().field(e.root, True)
+            fm.constraint_dynamic_model_l[e.idx].accept(self)
+
     def visit_expr_array_sum(self, s):
         # Don't recurse into this
         pass
